@@ -4,10 +4,12 @@ package nebula
 
 // C49 — stopping a node at any point of its life releases everything.
 //
-// Real nodes (nebula.Main) run inside testing/synctest bubbles on the channel-backed tester transport. A free-running
-// harness "network" (one pump goroutine per node, NOT a node goroutine) keeps every node's udp and tun output channels
-// drained and routes udp packets according to a programmable policy (deliver / drop / hold), so a node can never park on
-// a full tester channel: those channels are an artefact of the transport, not a property of nebula.
+// Real nodes (nebula.Main) run inside testing/synctest bubbles on the channel-backed tester udp transport. The overlay
+// device is handed to Main through its DeviceFactory parameter: c49Tun (below), or nebula's own disabled tun for nodes
+// configured with tun.disabled. A free-running harness "network" (one pump goroutine per node, NOT a node goroutine)
+// keeps every node's udp and tun output channels drained and routes udp packets according to a programmable policy
+// (deliver / drop / hold), so a node can never park on a full tester channel: those channels are an artefact of the
+// transport, not a property of nebula.
 //
 // Every call into a node (Main, Start, reload, control calls) is made under runtime/pprof goroutine labels
 // {"c49node": "<world>/<node>"}; labels are inherited by every goroutine a goroutine creates, so the goroutine profile
@@ -82,19 +84,7 @@ type c49Mon struct {
 	mu       sync.Mutex
 	classes  map[string]*c49ClassStat
 	seq      atomic.Int64
-	fatal    atomic.Bool
 	stranded atomic.Bool // the current bubble holds goroutines parked for ever (already reported)
-}
-
-// abort persists what was observed and ends the process: goroutines that never stop cannot be removed from the bubble,
-// and a bubble with a live ticker loop in it never ends.
-func (mo *c49Mon) abort(why string) {
-	mo.fatal.Store(true)
-	mo.r.Count("aborted_after_unrecoverable_leak", 1)
-	c49Finish(mo)
-	mo.r.Done()
-	fmt.Println("C49: " + why)
-	os.Exit(1)
 }
 
 func (mo *c49Mon) record(class string, stopD, waitD time.Duration, before, after int, neededTime bool) {
@@ -653,10 +643,12 @@ type c49StopOpts struct {
 	inflight bool   // after the burst, yield until a control call (reload) into the node is in flight (bounded)
 	preStop  func() // runs right before the Stop call (after the burst), on the harness goroutine
 	lateWork func() // runs after the node stopped and was checked: work arriving for a dead node
+	also     chan struct{}
 }
 
 // stop requests the stop of n at the current point, applies the oracle and records evidence under class.
-// It returns false when the node could not be brought down (the process is then beyond repair for further bubbles).
+// It returns false when the node could not be brought down even by rescue (its goroutines stay parked; the bubble then ends
+// with the runtime's deadlock panic, which c49Bubble expects after a reported stranding).
 func (w *c49World) stop(n *c49Node, class string, o c49StopOpts) bool {
 	r := w.r
 	if n.checked {
@@ -771,6 +763,9 @@ func (w *c49World) stop(n *c49Node, class string, o c49StopOpts) bool {
 		}
 		mu.Unlock()
 		key := "C49/goroutine-never-stops:" + strings.Join(c49Leafs(own), ",")
+		if len(own) == 0 {
+			key = "C49/wait-never-returns-although-no-goroutine-is-left"
+		}
 		if which == "stop-never-returns" {
 			key = "C49/stop-never-returns:" + strings.Join(c49Leafs(groups), ",")
 		}
@@ -906,26 +901,13 @@ func (w *c49World) rescue(n *c49Node, done chan struct{}) bool {
 	synctest.Wait()
 	close(stopDrain)
 	<-drained
-	k, g := c49Alive(n.label, true)
+	k, _ := c49Alive(n.label, true)
 	if k > 0 {
-		stranded := true
-		for i := range g {
-			// the stoppers waiting for the stranded goroutine (WaitGroup.Wait) go down with it
-			if !g[i].blockedOnPlainChannel() && !strings.Contains(g[i].Labels, `"c49role":"stopper"`) {
-				stranded = false
-			}
-		}
-		if stranded {
-			// parked for ever on a channel nobody will serve: harmless to what follows; the bubble will end with the runtime's
-			// deadlock panic, which c49Bubble expects
-			w.r.Count("nodes_left_stranded_on_a_channel", 1)
-			w.mo.stranded.Store(true)
-			w.stranded = true
-			return false
-		}
-		w.r.Count("unrescued_nodes", 1)
-		w.r.Info("unrescued:"+n.label, c49Sigs(g))
-		w.mo.abort(fmt.Sprintf("node %s cannot be brought down (%v): the bubble could never end, remaining cases are not run", n.label, c49Sigs(g)))
+		// Nothing more can be done for these goroutines. They do no harm to what follows: virtual time stops when the bubble's
+		// main goroutine returns, and the bubble then ends with the runtime's deadlock panic, which c49Bubble expects.
+		w.r.Count("nodes_left_stranded", 1)
+		w.mo.stranded.Store(true)
+		w.stranded = true
 		return false
 	}
 	w.r.Count("rescued_nodes", 1)
@@ -963,7 +945,7 @@ func (w *c49World) finish(scn string) {
 	for _, g := range c49Profile() {
 		if strings.HasPrefix(g.node(), w.tag+"/") {
 			w.r.Violation("C49/goroutine-left-at-end-of-scenario:"+g.sig(), fmt.Sprintf("%s: goroutine %s (%s) alive after every node was stopped", w.tag, g.sig(), g.Labels), map[string]any{"world": w.tag, "goroutine": g.Text})
-			w.mo.fatal.Store(true)
+			w.mo.stranded.Store(true)
 		}
 	}
 	w.r.Count("udp_packets_moved", int(w.udpMoved.Load()))
@@ -1242,13 +1224,9 @@ func c49Cases() []c49Case {
 			case "stop-responder":
 				w.stop(b, class, o)
 			case "stop-both-together":
-				var wg sync.WaitGroup
-				wg.Add(1)
-				o2 := c49Opts(w)
-				go func() { defer wg.Done(); w.stopPlain(b) }()
+				o.preStop = func() { o.also = w.stopAlso(b) }
 				w.stop(a, class, o)
-				wg.Wait()
-				_ = o2
+				w.joinAlso(b, o.also, class+"/the-other-end")
 			}
 			time.Sleep(c49Instant(w.rng, 5*time.Second)) // the survivor keeps talking to a dead peer
 			w.finish("live-direct")
@@ -1417,17 +1395,52 @@ func c49Cases() []c49Case {
 	return cs
 }
 
-// stopPlain stops a node without the oracle (used for a second node going down at the same time as the one under test);
-// the node is still checked by finish through the end-of-scenario goroutine census.
-func (w *c49World) stopPlain(n *c49Node) {
+// stopAlso requests the stop of a second node at the same time as the one under test, on its own goroutine; joinAlso then
+// applies the return / leftover-goroutine part of the oracle to it.
+func (w *c49World) stopAlso(n *c49Node) chan struct{} {
 	n.gate.Lock()
 	n.off = true
 	n.gate.Unlock()
 	n.checked = true
-	n.do(func() {
-		n.C.Stop()
-		n.C.Wait()
-	})
+	done := make(chan struct{})
+	go func() {
+		defer close(done)
+		pprof.Do(context.Background(), pprof.Labels("c49node", n.label, "c49role", "stopper"), func(context.Context) {
+			n.C.Stop()
+			n.C.Wait()
+		})
+	}()
+	return done
+}
+
+func (w *c49World) joinAlso(n *c49Node, done chan struct{}, class string) {
+	isDone := func() bool {
+		select {
+		case <-done:
+			return true
+		default:
+			return false
+		}
+	}
+	synctest.Wait()
+	if !isDone() {
+		time.Sleep(c49Bound)
+		synctest.Wait()
+	}
+	w.r.Eval(1)
+	w.r.Count("stops", 1)
+	w.r.DistinctClass(class)
+	_, own := c49Alive(n.label, false)
+	if !isDone() || len(own) > 0 {
+		_, g := c49Alive(n.label, true)
+		key := "C49/goroutine-never-stops:" + strings.Join(c49Leafs(own), ",")
+		if len(own) == 0 {
+			key = "C49/wait-never-returns-although-no-goroutine-is-left"
+		}
+		w.r.Violation(key, fmt.Sprintf("%s node %s (stopped together with its peer): returned=%v, node goroutines still alive: %v", class, n.Name, isDone(), c49Sigs(own)),
+			map[string]any{"world": w.tag, "node": n.Name, "class": class, "node_goroutines": c49Dump(g)})
+		w.rescue(n, done)
+	}
 }
 
 // c49Instant picks a virtual instant: half of the time aligned with the nodes' own tickers (100 ms handshake timer,
@@ -1461,7 +1474,9 @@ func c49Bubble(t *testing.T, mo *c49Mon, what string, fn func(t *testing.T)) {
 
 func c49Finish(mo *c49Mon) {
 	mo.mu.Lock()
-	mo.r.Info("stop_classes", mo.classes)
+	// one entry per shard: the driver keeps the last value written under a name
+	i, _ := verifkit.Shard()
+	mo.r.Info(fmt.Sprintf("stop_classes.shard%d", i), mo.classes)
 	mo.mu.Unlock()
 }
 
@@ -1472,16 +1487,12 @@ func TestVerifC49Phases(t *testing.T) {
 	mo := &c49Mon{r: r, classes: map[string]*c49ClassStat{}}
 	defer c49Finish(mo)
 	cases := c49Cases()
-	reps := verifkit.Scale(2, 60)
+	reps := verifkit.Scale(2, 150)
 	idx := 0
 	for rep := 0; rep < reps; rep++ {
 		for _, c := range cases {
 			idx++
 			if !verifkit.Mine(idx) {
-				continue
-			}
-			if mo.fatal.Load() {
-				r.Count("cases_skipped_after_unrecoverable_leak", 1)
 				continue
 			}
 			class := c.scn + "/" + c.phase
@@ -1505,13 +1516,9 @@ func TestVerifC49Stress(t *testing.T) {
 	defer r.Done()
 	mo := &c49Mon{r: r, classes: map[string]*c49ClassStat{}}
 	defer c49Finish(mo)
-	runs := verifkit.Scale(4, 120)
+	runs := verifkit.Scale(4, 240)
 	for run := 0; run < runs; run++ {
 		if !verifkit.Mine(run) {
-			continue
-		}
-		if mo.fatal.Load() {
-			r.Count("cases_skipped_after_unrecoverable_leak", 1)
 			continue
 		}
 		rng := verifkit.SubRand("C49stress", run)
